@@ -135,6 +135,45 @@ def run_model(lines, chunk=None):
     return out
 
 
+def _run_inv_chunk(lines):
+    p = subprocess.run([DRIVER, "inv"], input=("\n".join(lines) + "\n").encode(),
+                       stdout=subprocess.PIPE, stderr=subprocess.PIPE, timeout=1800)
+    out = {"histories": 0, "configs": 0, "cut": 0, "violations": 0, "bad": [], "cov": {}}
+    for ln in p.stdout.decode().split("\n"):
+        if ln.startswith("INVSUMMARY"):
+            m = dict(re.findall(r"(\w+)=(\d+)", ln))
+            out["histories"] = int(m["histories"]); out["configs"] = int(m["configs"])
+            out["cut"] = int(m["cut_by_hypothesis"]); out["violations"] = int(m["violations"])
+        elif ln.startswith("COV "):
+            _, k, v = ln.split(" ", 2)
+            out["cov"][k] = out["cov"].get(k, 0) + int(v)
+        elif ln.startswith("INV "):
+            out["bad"].append(ln)
+    if p.returncode != 0:
+        out["bad"].append("driver inv failed: " + p.stderr.decode()[-300:])
+        out["violations"] += 1
+    return out
+
+
+def run_inv(lines):
+    """step-level run of the model on (hinted) history lines: the executable mirror of the proved
+    invariant on every configuration under the theorems' hypotheses, and which machine branches ran"""
+    if not lines:
+        return {"histories": 0, "configs": 0, "cut": 0, "violations": 0, "bad": [], "cov": {}}
+    chunk = max(50, (len(lines) + NPROC - 1) // NPROC)
+    chunks = [lines[i:i + chunk] for i in range(0, len(lines), chunk)]
+    tot = {"histories": 0, "configs": 0, "cut": 0, "violations": 0, "bad": [], "cov": {}}
+    with ThreadPoolExecutor(max_workers=NPROC) as ex:
+        for r in ex.map(_run_inv_chunk, chunks):
+            for k in ("histories", "configs", "cut", "violations"):
+                tot[k] += r[k]
+            tot["bad"] += r["bad"][:20]
+            for k, v in r["cov"].items():
+                tot["cov"][k] = tot["cov"].get(k, 0) + v
+    tot["bad"] = tot["bad"][:40]
+    return tot
+
+
 # ---------------------------------------------------------------- comparison
 LINE_RE = re.compile(r"^(\d+) (\S+)(?: D(\S*) R(\S*) T(\S+) S (.*?) O ?(.*))?$")
 
